@@ -399,6 +399,29 @@ def run(ctx: Ctx) -> None:
     wtxt = (norm(nr) + "\n" + norm(inner)).replace("dataclasses.MISSING", "MISSING")
     plain_default = wtxt.replace("f.default_factory", "")
     ok = "f.default_factory is not MISSING" in wtxt and "f.default_factory()" in wtxt and "f.default" in plain_default
+    # nothing computed for one field of one object is kept for another: every function involved writes only to its own locals
+    shared_writes = []
+    funcs20 = list({id(f_): f_ for f_ in [nr, inner] + [x for x in ast.walk(nr) if isinstance(x, ast.FunctionDef)] + [x for x in ast.walk(inner) if isinstance(x, ast.FunctionDef)]}.values())
+    for f_ in funcs20:
+        own = {a_.arg for a_ in f_.args.args + f_.args.kwonlyargs}
+        for x in walk_local(f_):
+            if isinstance(x, (ast.Assign, ast.AnnAssign, ast.AugAssign, ast.For)):
+                for t_ in (x.targets if isinstance(x, ast.Assign) else [x.target]):
+                    own |= {y.id for y in ast.walk(t_) if isinstance(y, ast.Name) and isinstance(y.ctx, ast.Store)}
+            if isinstance(x, (ast.ListComp, ast.GeneratorExp, ast.DictComp, ast.SetComp)):
+                own |= {y.id for g_ in x.generators for y in ast.walk(g_.target) if isinstance(y, ast.Name)}
+        for x in walk_local(f_):
+            base = None
+            if isinstance(x, ast.Subscript) and isinstance(x.ctx, (ast.Store, ast.Del)):
+                base = x.value
+            elif isinstance(x, ast.Call) and isinstance(x.func, ast.Attribute) and x.func.attr in ("append", "add", "update", "setdefault", "extend", "insert", "pop", "clear", "remove"):
+                base = x.func.value
+            elif isinstance(x, (ast.Nonlocal, ast.Global)):
+                shared_writes.append(short(x))
+            if isinstance(base, ast.Name) and base.id not in own:
+                shared_writes.append(short(x, 40))
+    ctx.ob("R20.5", "gentest:nondefault_repr|nothing is remembered from one field to the next", not shared_writes,
+           msg=f"{sorted(set(shared_writes))} writes to something that outlives the field being printed (a cache of defaults, a shared list): what is printed for one object depends on which objects were printed before", node=inner, mod=gt, nontrivial=False)
     ctx.ob("R20.5", "gentest:nondefault_repr|declared default is factory-aware", ok, msg="the declared default is not taken from default_factory() when one exists", node=inner, mod=gt, nontrivial=False)
     ctx.ob("R20.5", "gentest:nondefault_repr|qualified class name", "__qualname__" in txt, msg="the class name printed is not the qualified name", node=inner, mod=gt, nontrivial=False)
 
